@@ -50,6 +50,7 @@ typedef struct {
    long calls[5];          /* calls made by the codec while objects of arch level i were running */
    long cmp, neq;          /* in-situ comparisons made / with differing result (integer kernels) */
    long rworst, nworst;    /* float kernels: the worst case seen (r, n) by r/(2n+4) */
+   long nfcount, nfcount2; /* float kernels: calls whose data were not finite (nothing asserted); PVQ: degenerate inputs logged */
    int nshape, nlog;
    uint64_t shapes[NSHAPE];
 } kinfo;
@@ -78,6 +79,7 @@ static void kc_head(kinfo *k, const int *shape, int ns)
    fprintf(kout, "]");
 }
 /* integer kernel: digests of everything the two implementations produced */
+static long g_nd, g_nsat;      /* celt_fir: samples that differ / that differ as "-32767 (portable) against -32768 (SIMD)" */
 static void rec_int(kinfo *k, const int *shape, int ns, uint64_t ref, uint64_t got)
 {
    int differ = ref != got, fresh;
@@ -86,13 +88,18 @@ static void rec_int(kinfo *k, const int *shape, int ns, uint64_t ref, uint64_t g
    if ((g_logall && !g_nest) || fresh || (differ && k->nlog < 24)) {
       if (differ) k->nlog++;
       kc_head(k, shape, ns);
-      fprintf(kout, ",\"cls\":\"int\",\"ref\":\"%016llx\",\"got\":\"%016llx\"}\n", (unsigned long long)ref, (unsigned long long)got);
+      fprintf(kout, ",\"cls\":\"int\",\"ref\":\"%016llx\",\"got\":\"%016llx\",\"nd\":%ld,\"nsat\":%ld}\n", (unsigned long long)ref, (unsigned long long)got, g_nd, g_nsat);
    }
+   g_nd = g_nsat = 0;
 }
 /* float kernel: r = |got-ref| in units of 2^-24 * (sum of the magnitudes of the terms), n = number of terms */
+/* g_nf: the terms of the last measured case are not finite (NaN / Inf data) or so large that single precision overflows:
+   "within reassociation error" says nothing there; the case is recorded with nf = 1 and no r */
+static int g_nf;
 static long r_units(double diff, double S, int n)
 {
    double u = ldexp(1.0, -24), den = u * (S + (double)(n + 1) * FLT_MIN), r;
+   if (!(S == S) || S > 1e30) { g_nf = 1; return 0; }
    if (!(diff == diff)) return 1000000000L;
    if (diff < 0) diff = -diff;
    if (diff == 0) return 0;
@@ -102,15 +109,21 @@ static long r_units(double diff, double S, int n)
 }
 static void rec_flt(kinfo *k, const int *shape, int ns, long r, int n)
 {
-   int fresh, worse;
+   int fresh, worse, nf = g_nf;
+   g_nf = 0;
    k->cmp++;
+   if (nf) {
+      k->nfcount++;
+      if (g_logall || k->nfcount <= 8) { kc_head(k, shape, ns); fprintf(kout, ",\"cls\":\"flt\",\"nf\":1,\"r\":0,\"n\":%d}\n", n); }
+      return;
+   }
    worse = (double)r * (2.0 * k->nworst + 4) > (double)k->rworst * (2.0 * n + 4);
    if (worse) { k->rworst = r; k->nworst = n; }
    fresh = new_shape(k, shape, ns);
    if ((g_logall && !g_nest) || fresh || (worse && k->nlog < 400)) {
       if (worse) k->nlog++;
       kc_head(k, shape, ns);
-      fprintf(kout, ",\"cls\":\"flt\",\"r\":%ld,\"n\":%d}\n", r, n);
+      fprintf(kout, ",\"cls\":\"flt\",\"nf\":0,\"r\":%ld,\"n\":%d}\n", r, n);
    }
 }
 static int al8(const void *p) { return (int)((size_t)p & 31); }
@@ -177,6 +190,7 @@ void __wrap_celt_fir_sse4_1(const opus_val16 *x, const opus_val16 *num, opus_val
    g_nest++; __real_celt_fir_sse4_1(x, num, y, N, ord, arch); g_nest--;
    y2 = (opus_val16 *)malloc(sizeof(opus_val16) * (size_t)(N > 0 ? N : 1));
    g_inref++; celt_fir_c(x, num, y2, N, ord, 0); g_inref--;
+   { int k; g_nd = g_nsat = 0; for (k = 0; k < N; k++) if (y[k] != y2[k]) { g_nd++; if (y2[k] == -32767 && y[k] == -32768) g_nsat++; } }
    sh[0] = N; sh[1] = ord; sh[2] = al8(x) & 15;
    rec_int(&K_fir_sse41, sh, 3, hx_fnv(y2, sizeof(opus_val16) * (size_t)N), hx_fnv(y, sizeof(opus_val16) * (size_t)N));
    free(y2);
@@ -365,7 +379,7 @@ static kinfo K_comb_ip = { "comb_filter_const_sse", "comb_filter_const_inplace" 
 void __real_comb_filter_const_sse(opus_val32 *y, opus_val32 *x, int T, int N, opus_val16 g10, opus_val16 g11, opus_val16 g12);
 void __wrap_comb_filter_const_sse(opus_val32 *y, opus_val32 *x, int T, int N, opus_val16 g10, opus_val16 g11, opus_val16 g12)
 {
-   opus_val32 *xb, *yb, *xc; int sh[3], i, inplace = (y == x); long r = 0;
+   opus_val32 *xb, *yb, *xc; int sh[3], i, inplace = (y == x), nterms = 8; long r = 0;
    ENTER(K_comb);
    if (PLAIN() || N <= 0 || T < 2 || (!inplace && y < x + N && x - T - 2 < y + N)) { __real_comb_filter_const_sse(y, x, T, N, g10, g11, g12); return; }
    xb = (opus_val32 *)malloc(sizeof(opus_val32) * (size_t)(N + T + 2));
@@ -378,16 +392,25 @@ void __wrap_comb_filter_const_sse(opus_val32 *y, opus_val32 *x, int T, int N, op
       opus_val32 *orig = NULL;
       if (inplace) { orig = (opus_val32 *)malloc(sizeof(opus_val32) * (size_t)N); memcpy(orig, xc, sizeof(opus_val32) * (size_t)N); }
       g_inref++; hxref_comb_filter_const_c(yb, xc, T, N, g10, g11, g12); g_inref--;
-      for (i = 0; i < N; i++) {
-         double S = absd(inplace ? orig[i] : xc[i]) + absd((double)g10 * xc[i - T]) + absd((double)g11) * (absd(xc[i - T + 1]) + absd(xc[i - T - 1]))
-                    + absd((double)g12) * (absd(xc[i - T + 2]) + absd(xc[i - T - 2]));
-         long ri = r_units((double)y[i] - (double)yb[i], S, 8);
-         if (ri > r) r = ri;
+      {
+         /* out of place: each sample against the magnitudes of its own terms.  In place the filter is recursive (y[i-T..] are
+            outputs): an error made in one period is carried into the later ones - not amplified, the tap gains sum to less than
+            one - so the difference is measured against the largest term magnitude of the call and n counts the operations of
+            all N/T+1 periods a sample can depend on */
+         double Smax = 0; int L = inplace ? N / T + 1 : 1;
+         for (i = 0; i < N; i++) {
+            double S = absd(inplace ? orig[i] : xc[i]) + absd((double)g10 * xc[i - T]) + absd((double)g11) * (absd(xc[i - T + 1]) + absd(xc[i - T - 1]))
+                       + absd((double)g12) * (absd(xc[i - T + 2]) + absd(xc[i - T - 2]));
+            if (!(S <= Smax)) Smax = S;
+            if (!inplace) { long ri = r_units((double)y[i] - (double)yb[i], S, 8); if (ri > r) r = ri; }
+         }
+         if (inplace) for (i = 0; i < N; i++) { long ri = r_units((double)y[i] - (double)yb[i], Smax, 8); if (ri > r) r = ri; }
+         nterms = 8 * L;
       }
       if (orig) free(orig);
    }
    sh[0] = N; sh[1] = T < 64 ? T : 64 + (T & 3); sh[2] = inplace;
-   rec_flt(inplace ? &K_comb_ip : &K_comb, sh, 3, r, 8);
+   rec_flt(inplace ? &K_comb_ip : &K_comb, sh, 3, r, nterms);
    if (!inplace) free(yb);
    free(xb);
 }
@@ -438,19 +461,24 @@ opus_val16 __real_op_pvq_search_sse2(celt_norm *_X, int *iy, int K, int N, int a
 opus_val16 __wrap_op_pvq_search_sse2(celt_norm *_X, int *iy, int K, int N, int arch)
 {
    celt_norm *Xc; int *iy2; opus_val16 got, ref; int j, sh[2], fresh, worse = 0; long sums = 0, sumc = 0, sss = 0, ssc = 0, same = 1;
-   double xx = 0, xs = 0, xc = 0, qs, qc;
+   double xx = 0, xs = 0, xc = 0, qs, qc, sa = 0; int finite_all = 1;
    ENTER(K_pvq);
    if (PLAIN() || N <= 0 || K <= 0) return __real_op_pvq_search_sse2(_X, iy, K, N, arch);
    Xc = (celt_norm *)malloc(sizeof(celt_norm) * (size_t)N);
    iy2 = (int *)malloc(sizeof(int) * (size_t)(N + 3));
    memcpy(Xc, _X, sizeof(celt_norm) * (size_t)N);
-   for (j = 0; j < N; j++) xx += (double)_X[j] * _X[j];
+   for (j = 0; j < N; j++) { double a = _X[j]; xx += a * a; sa += a < 0 ? -a : a; if (!(a == a) || a > 3e38 || a < -3e38) finite_all = 0; }
+   if (!finite_all) xx = 0;
    got = __real_op_pvq_search_sse2(_X, iy, K, N, arch);
    g_inref++; ref = op_pvq_search_c(Xc, iy2, K, N, 0); g_inref--;
    memcpy(Xc, _X, sizeof(celt_norm) * (size_t)N);      /* (the portable kernel leaves |X| behind) */
    for (j = 0; j < N; j++) {
-      sums += labs((long)iy[j]); sumc += labs((long)iy2[j]); sss += (long)iy[j] * iy[j]; ssc += (long)iy2[j] * iy2[j];
-      xs += (double)_X[j] * iy[j]; xc += (double)_X[j] * iy2[j];
+      /* (a kernel that loses control returns arbitrary 32-bit words: the sums are clamped so that they stay representable) */
+      long a = labs((long)iy[j]), b = labs((long)iy2[j]);
+      if (a > 1000) a = 1000;
+      if (b > 1000) b = 1000;
+      sums += a; sumc += b; sss += a * a; ssc += b * b;
+      if (finite_all) { xs += (double)_X[j] * iy[j]; xc += (double)_X[j] * iy2[j]; }
       if (iy[j] != iy2[j]) same = 0;
    }
    qs = (xx > 0 && sss > 0) ? xs / sqrt(xx * (double)sss) : 0; qc = (xx > 0 && ssc > 0) ? xc / sqrt(xx * (double)ssc) : 0;
@@ -458,18 +486,22 @@ opus_val16 __wrap_op_pvq_search_sse2(celt_norm *_X, int *iy, int K, int N, int a
    sh[0] = N; sh[1] = K;
    fresh = new_shape(&K_pvq, sh, 2);
    {
-      /* every new worst case of (portable match - SIMD match) is logged, so that the recorded maximum is the true one */
+      /* class of the input: 0 = ordinary (all finite, sum|X| well inside the kernels' (1e-15, 64) window), 1 = degenerate (a NaN or
+         Inf element, sum|X| >= 128 or <= 1e-20: both kernels must take their "too small / too large: one pulse train at 0" exit
+         when they project, i.e. when K > N/2), 2 = near a border of the window (nothing but the pulse count is recorded for) */
+      int cls = (finite_all && sa > 1e-10 && sa < 32) ? 0 : (!finite_all || sa >= 128 || sa <= 1e-20) ? 1 : 2;
       long loss = (long)floor(qc * 1e6 + 0.5) - (long)floor(qs * 1e6 + 0.5);
-      worse = (xx > 1e-30 && xx < 1e30) && loss > K_pvq.rworst;
+      /* every new worst case of (portable match - SIMD match) is logged, so that the recorded maximum is the true one */
+      worse = cls == 0 && loss > K_pvq.rworst;
       if (worse) { K_pvq.rworst = loss; K_pvq.nworst = N; }
-   }
-   if (g_logall || fresh || worse || (!same && K_pvq.nlog < 100) ) {
-      int degenerate = !(xx > 1e-30 && xx < 1e30);
-      if (!same) K_pvq.nlog++;
-      kc_head(&K_pvq, sh, 2);
-      fprintf(kout, ",\"cls\":\"pvq\",\"K\":%d,\"sums\":%ld,\"sumc\":%ld,\"sss\":%ld,\"ssc\":%ld,\"yys\":%ld,\"yyc\":%ld,\"qs\":%ld,\"qc\":%ld,\"same\":%ld,\"deg\":%d}\n",
-              K, sums, sumc, sss, ssc, (long)floor((double)got + 0.5), (long)floor((double)ref + 0.5),
-              (long)floor(qs * 1e6 + 0.5), (long)floor(qc * 1e6 + 0.5), same, degenerate);
+      if (cls != 0) { qs = qc = 0; }
+      if (g_logall || fresh || worse || ((!same || sums != K || sumc != K) && K_pvq.nlog < 100) || (cls == 1 && (K > (N >> 1) ? K_pvq.nfcount2++ : K_pvq.nfcount++) < 200)) {
+         if (!same || sums != K || sumc != K) K_pvq.nlog++;
+         kc_head(&K_pvq, sh, 2);
+         fprintf(kout, ",\"cls\":\"pvq\",\"K\":%d,\"sums\":%ld,\"sumc\":%ld,\"sss\":%ld,\"ssc\":%ld,\"yys\":%ld,\"yyc\":%ld,\"qs\":%ld,\"qc\":%ld,\"same\":%ld,\"deg\":%d,\"proj\":%d}\n",
+                 K, sums, sumc, sss, ssc, cls == 0 ? (long)floor((double)got + 0.5) : 0, cls == 0 ? (long)floor((double)ref + 0.5) : 0,
+                 (long)floor(qs * 1e6 + 0.5), (long)floor(qc * 1e6 + 0.5), same, cls, K > (N >> 1));
+      }
    }
    free(Xc); free(iy2);
    return got;
@@ -776,7 +808,7 @@ static void synth(long n)
          /* x has ord samples of history in front; ord as used by the codec (LPC order 24) and a few other multiples of 4 */
          static const int ORDS[] = { 24, 24, 16, 8, 12, 4, 32 };
          int ord = ORDS[it % 7], N = len, k; opus_int16 *bx, *bn, *x, *num, *y;
-         x = vec16(N + ord, ox, 2000, style, &bx) + ord; num = vec16(ord, oy, 2500, style, &bn);
+         x = vec16(N + ord, ox, (it % 9 == 8) ? 32767 : 2000, style, &bx) + ord; num = vec16(ord, oy, 2500, style, &bn);      /* (every ninth case reaches the 16-bit rails) */
          y = (opus_int16 *)malloc(sizeof(opus_int16) * (size_t)(N ? N : 1));
          for (k = 0; k < N; k++) y[k] = 0x5a5a;
          celt_fir_sse4_1(x, num, y, N, ord, hx_u(&R, 2) ? opus_select_arch_uncapped_level() : 0);
@@ -825,9 +857,9 @@ static void synth(long n)
 #endif
 #ifdef HAVE_comb_filter_const_sse
       {
-         /* N a multiple of 4 (static modes), T in [15, 1024], gains as the post-filter uses them; out of place and in place */
+         /* N a multiple of 4 (static modes), T in [15, 1024], gains as the post-filter uses them (tap sets x gain <= 0.75); out of place and in place */
          int N = 4 * (int)hx_u(&R, 241), T = hx_u(&R, 3) ? hx_range(&R, 15, 1024) : hx_range(&R, 15, 22), ip = (int)hx_u(&R, 2);
-         double g = hx_unit(&R); float *bx, *x, *y; static const float tp[3][3] = { { 0.3066406250f, 0.2170410156f, 0.1296386719f }, { 0.4638671875f, 0.2680664062f, 0.f }, { 0.7998046875f, 0.1000976562f, 0.f } };
+         double g = 0.75 * hx_unit(&R); float *bx, *x, *y; static const float tp[3][3] = { { 0.3066406250f, 0.2170410156f, 0.1296386719f }, { 0.4638671875f, 0.2680664062f, 0.f }, { 0.7998046875f, 0.1000976562f, 0.f } };
          int ts = (int)hx_u(&R, 3);
          x = vecf(N + T + 2, ox, 32768.0, (int)((it / NLENS) % 5), &bx) + T + 2;
          y = ip ? x : (float *)malloc(sizeof(float) * (size_t)(N ? N : 1));
@@ -838,12 +870,21 @@ static void synth(long n)
 #endif
 #ifdef HAVE_op_pvq_search_sse2
       {
-         /* N, K as the band splitting produces them: N in 1..176 (mostly small), K in 1..128; iy has N+3 entries */
-         int N = hx_u(&R, 3) ? 1 + (int)hx_u(&R, 24) : 1 + (int)hx_u(&R, 176), K = hx_u(&R, 2) ? 1 + (int)hx_u(&R, 12) : 1 + (int)hx_u(&R, 128), j;
+         /* N, K as the band splitting produces them: N in 2..176 (mostly small; alg_quant() needs at least two dimensions), K in 1..128; iy has N+3 entries */
+         int N = hx_u(&R, 3) ? 2 + (int)hx_u(&R, 24) : 2 + (int)hx_u(&R, 175), K = hx_u(&R, 2) ? 1 + (int)hx_u(&R, 12) : 1 + (int)hx_u(&R, 128), j;
          float *bx, *X; int *iy; double e = 0; int st = (int)((it / NLENS) % 4);
          X = vecf(N, ox, 1.0, st == 1 ? 0 : st, &bx);
          for (j = 0; j < N; j++) e += (double)X[j] * X[j];
          if (e > 0) for (j = 0; j < N; j++) X[j] = (float)(X[j] / sqrt(e)); else X[0] = 1;      /* celt_norm vectors have unit energy */
+         if (it % 5 == 4) {
+            /* arbitrary data including extremes: NaN, +-Inf, huge, denormal, all-zero vectors (what a NaN / Inf / silent input
+               frame turns a band into), alone or inside an otherwise ordinary vector */
+            static const float BAD[8] = { NAN, INFINITY, -INFINITY, 1e30f, -3e38f, 1e-40f, 0.f, -NAN };
+            int kind = (int)hx_u(&R, 8), cnt = hx_u(&R, 3) ? 1 : N;
+            if (hx_u(&R, 2)) K = (N >> 1) + 1 + (int)hx_u(&R, 8);      /* the projection branch (K > N/2) and the plain one */
+            if (cnt == N) for (j = 0; j < N; j++) X[j] = (kind >= 5 || hx_u(&R, 2)) ? BAD[kind] : X[j];
+            else X[hx_u(&R, (uint32_t)N)] = BAD[kind];
+         }
          iy = (int *)malloc(sizeof(int) * (size_t)(N + 3));
          (void)op_pvq_search_sse2(X, iy, K, N, 0);
          free(bx); free(iy);
@@ -852,6 +893,50 @@ static void synth(long n)
 #endif
    }
 }
+
+/* ---- the voice-activity detector on synthetic signals, state carried from frame to frame --------------------------------
+   (the wrapper compares every call with the portable kernel run on a copy of the state as it was before the call) */
+#ifdef HAVE_silk_VAD_GetSA_Q8_sse4_1
+static opus_int16 vad_sample(int sig, long n, double p, int amp, hx_rng *r)
+{
+   double v;
+   switch (sig) {
+   case 0: v = (hx_unit(r) * 2 - 1) * amp; break;                                   /* noise */
+   case 1: v = amp * sin(2 * M_PI * n / p); break;                                  /* sine */
+   case 2: v = (fmod((double)n, p) < p / 2) ? amp : -amp; break;                    /* square wave */
+   case 3: v = amp; break;                                                          /* DC */
+   case 4: v = (n & 1) ? 32767 : -32768; break;                                     /* alternating extremes (Nyquist) */
+   case 5: v = ((n / 400) & 1) ? ((n & 1) ? amp : -amp) : (hx_unit(r) * 200 - 100); break;   /* full-scale bursts */
+   case 6: v = (hx_unit(r) * 2 - 1) * 8.0 * amp; break;                             /* hard-clipped noise */
+   case 7: v = ((n >> 1) & 1) ? amp : -amp; break;                                  /* + + - -  (Nyquist/2) */
+   default: v = ((n >> 2) & 1) ? amp : -amp; break;                                 /* + + + + - - - -  (Nyquist/4) */
+   }
+   if (v > 32767) v = 32767;
+   if (v < -32768) v = -32768;
+   return (opus_int16)floor(v + .5);
+}
+static void synth_vad(long cases)
+{
+   static const int FSK[3] = { 8, 12, 16 }, AMPS[8] = { 30, 1000, 8000, 20000, 28000, 30000, 32000, 32767 };
+   static const double PER[15] = { 2, 2.2, 2.5, 2.67, 3, 3.5, 4, 5, 6.3, 8, 11, 16, 27, 40, 100 };
+   silk_encoder_state *st = (silk_encoder_state *)malloc(sizeof *st); opus_int16 *pcm; long c; int fr, i;
+   for (c = 0; c < cases; c++) {
+      int fs = FSK[c % 3], ms = (c / 3) % 2 ? 20 : 10, sig = (int)((c / 6) % 9), amp = AMPS[hx_u(&R, 8)], nfr = 26 + (int)hx_u(&R, 8);
+      double p = PER[hx_u(&R, 15)]; long n = 0; hx_rng nr; nr.s = R.s ^ 0x1234;
+      if (hx_u(&R, 2)) amp = AMPS[4 + hx_u(&R, 4)];                              /* mostly near full scale */
+      memset(st, 0, sizeof *st);
+      st->fs_kHz = fs; st->frame_length = ms * fs; st->arch = opus_select_arch_uncapped_level();
+      silk_VAD_Init(&st->sVAD);
+      pcm = (opus_int16 *)malloc(sizeof(opus_int16) * (size_t)st->frame_length);       /* exact size */
+      for (fr = 0; fr < nfr; fr++) {
+         for (i = 0; i < st->frame_length; i++) pcm[i] = vad_sample(sig, n++, p, amp, &nr);
+         (void)silk_VAD_GetSA_Q8_sse4_1(st, pcm);
+      }
+      free(pcm);
+   }
+   free(st);
+}
+#endif
 
 /* ------------------------------------------------------------------------------------------------ twins */
 static double g_phase, g_t;
@@ -900,29 +985,64 @@ static int opus_select_arch_uncapped_level(void)
    return 0;
 #endif
 }
+/* extreme signal families (int16): 1 = full-scale square waves in the upper half of the speech band, 2 = hard-clipped noise,
+   3 = alternating +-32767 at Nyquist/2 and Nyquist/4 (changing every 10 frames' worth); sustained for the whole history */
+static void gen_extreme(opus_int16 *x, long n, int ch, int fs, int kind, hx_rng *r)
+{
+   long i; int c; double per = fs / 16000.0 * (2.2 + 2.0 * hx_unit(r));      /* 3.6 .. 7.3 kHz */
+   for (i = 0; i < n; i++) {
+      double v;
+      if (kind == 1) v = fmod((double)i, per) < per / 2 ? 32767 : -32767;
+      else if (kind == 2) v = (hx_unit(r) * 2 - 1) * 8 * 32767.0;
+      else { long blk = i / (fs / 5); v = (blk & 1) ? (((i >> 2) & 1) ? 32767 : -32767) : (((i >> 1) & 1) ? 32767 : -32767); }
+      if (v > 32767) v = 32767;
+      if (v < -32767) v = -32767;
+      for (c = 0; c < ch; c++) x[i * ch + c] = (opus_int16)((c & 1) && kind == 3 ? -v : v);
+   }
+}
+
 static void set_cap(int lv) { char b[8]; snprintf(b, sizeof b, "%d", lv); setenv("OPUS_VERIF_ARCH_CAP", b, 1); }
 
 #define MAXTOK 16
 #define MAXLV 5
 static int run_history(char *line)
 {
-   long id, sigseed; int app, fs, ch, cx, br, br2, fec, durq, vbr, run; char toks[MAXTOK]; int ntok = 0;
+   long id, sigseed; int app, fs, ch, cx, br, br2, fec, durq, vbr, run, sigkind = 0; char toks[MAXTOK]; int ntok = 0;
+   float *fin = NULL;
    char *bar = strchr(line, '|'), *tk; int top = opus_select_arch_uncapped_level(), lv, t, f;
    int frame, nfr; opus_int16 *in; unsigned char *pk[MAXLV]; int *plen[MAXLV]; opus_uint32 *prng[MAXLV];
    int srcs[2], nsrc, si;
    static char lines[MAXLV][MAXTOK][320];
    if (!bar) return -1;
    *bar = 0;
-   if (sscanf(line, "H %ld %d %d %d %d %d %d %d %d %d %d %ld", &id, &app, &fs, &ch, &cx, &br, &br2, &fec, &durq, &vbr, &run, &sigseed) != 12) return -1;
+   if (sscanf(line, "H %ld %d %d %d %d %d %d %d %d %d %d %ld %d", &id, &app, &fs, &ch, &cx, &br, &br2, &fec, &durq, &vbr, &run, &sigseed, &sigkind) < 12) return -1;
+   if (sigkind < 0 || sigkind > 4) sigkind = 0;
+#if FX
+   if (sigkind == 4) sigkind = 0;       /* NaN / Inf input exists for the float API of the float build only */
+#endif
    for (tk = strtok(bar + 1, " \t\r\n"); tk && ntok < MAXTOK; tk = strtok(NULL, " \t\r\n")) toks[ntok++] = tk[0];
    if (ntok == 0 || run < 1) return -1;
    frame = (int)((long)fs * durq / 2000);
    nfr = ntok * run;
    in = (opus_int16 *)malloc(sizeof(opus_int16) * (size_t)nfr * frame * ch);
    g_phase = 0; g_t = 0; g_sig.s = (uint64_t)sigseed * 2654435761UL + 99;
-   gen_signal(in, (long)nfr * frame, ch, fs);
-   printf("{\"k\":\"new\",\"id\":%ld,\"fx\":%d,\"top\":%d,\"app\":%d,\"fs\":%d,\"ch\":%d,\"cx\":%d,\"br\":%d,\"br2\":%d,\"fec\":%d,\"dq\":%d,\"vbr\":%d,\"run\":%d,\"ntok\":%d}\n",
-          id, FX, top, app, fs, ch, cx, br, br2, fec, durq, vbr, run, ntok);
+   if (sigkind >= 1 && sigkind <= 3) gen_extreme(in, (long)nfr * frame, ch, fs, sigkind, &g_sig);
+   else gen_signal(in, (long)nfr * frame, ch, fs);
+   if (sigkind == 4) {
+      /* float input with NaN / +-Inf / huge samples: single ones, short bursts and whole frames */
+      long tot = (long)nfr * frame * ch, i; hx_rng q; q.s = (uint64_t)sigseed * 77 + 3;
+      static const float BADS[6] = { NAN, INFINITY, -INFINITY, 3e38f, -1e30f, 1e-42f };
+      fin = (float *)malloc(sizeof(float) * (size_t)tot);
+      for (i = 0; i < tot; i++) fin[i] = in[i] / 32768.f;
+      for (i = 0; i < nfr; i++) {
+         uint32_t what = hx_u(&q, 6); long base = i * (long)frame * ch, k;
+         if (what == 0) fin[base + hx_u(&q, (uint32_t)(frame * ch))] = BADS[hx_u(&q, 6)];
+         else if (what == 1) { long st = hx_u(&q, (uint32_t)(frame * ch)), len = 1 + hx_u(&q, 40); float b = BADS[hx_u(&q, 6)]; for (k = st; k < st + len && k < (long)frame * ch; k++) fin[base + k] = b; }
+         else if (what == 2 && hx_u(&q, 3) == 0) { float b = BADS[hx_u(&q, 6)]; for (k = 0; k < (long)frame * ch; k++) fin[base + k] = b; }
+      }
+   }
+   printf("{\"k\":\"new\",\"id\":%ld,\"fx\":%d,\"top\":%d,\"app\":%d,\"fs\":%d,\"ch\":%d,\"cx\":%d,\"br\":%d,\"br2\":%d,\"fec\":%d,\"dq\":%d,\"vbr\":%d,\"run\":%d,\"ntok\":%d,\"sig\":%d}\n",
+          id, FX, top, app, fs, ch, cx, br, br2, fec, durq, vbr, run, ntok, sigkind);
    /* encoders, one per level */
    for (lv = 0; lv <= top; lv++) {
       OpusEncoder *enc; int err, arch = -1;
@@ -945,6 +1065,10 @@ static int run_history(char *line)
          for (f = 0; f < run; f++) {
             int i = t * run + f, r; opus_uint32 rng = 0;
             hx_arm(120);
+#if !FX
+            if (fin) r = opus_encode_float(enc, fin + (size_t)i * frame * ch, frame, pk[lv] + (size_t)i * 1500, 1500);
+            else
+#endif
             r = opus_encode(enc, in + (size_t)i * frame * ch, frame, pk[lv] + (size_t)i * 1500, 1500);
             hx_disarm();
             opus_encoder_ctl(enc, OPUS_GET_FINAL_RANGE(&rng));
@@ -1024,7 +1148,7 @@ static int run_history(char *line)
       free(ref0); free(out);
    }
    for (lv = 0; lv <= top; lv++) { free(pk[lv]); free(plen[lv]); free(prng[lv]); }
-   free(in);
+   free(in); free(fin);
    printf("{\"k\":\"end\",\"id\":%ld}\n", id);
    return 0;
 }
@@ -1040,6 +1164,9 @@ int main(int argc, char **argv)
       unsetenv("OPUS_VERIF_ARCH_CAP");
       g_insitu = 1; g_logall = 1; g_mode = "syn"; g_level = 0;
       synth(atol(argv[3]));
+#ifdef HAVE_silk_VAD_GetSA_Q8_sse4_1
+      synth_vad(atol(argv[3]) / 4 + 54);
+#endif
       dump_stats(stdout, 0);
       fclose(kout);
       return 0;
